@@ -175,8 +175,9 @@ Section DMRG.
   Notation Zi := (Z K Hs d).
   Notation NNi := (NN K Hs d).
   Notation EEi := (EE K Hs d).
-  Variable lam : F.
-  Hypothesis Hlam : bounded_below d L Hs lam.
+  (* a property of energies of normalised states (instantiated with "at least lam" for an operator bounded below by lam) *)
+  Variable LB : K -> Prop.
+  Hypothesis HLB : forall A : list (site K), NNi A = k1 K -> LB (EEi A).
 
   (* Ritz contract of one local eigensolver call *)
   Definition keig_ok (BL BR : env K) (W : osite K) (A : site K) (ans : K * site K) : Prop :=
@@ -204,7 +205,7 @@ Section DMRG.
     rtr_ok (s_tr (fst (dmrg_opt keig Hs se i))) ->
     let se' := dmrg_opt keig Hs se i in
     Zi (fst se') i /\ NNi (s_A (fst se')) = k1 K /\ snd se' = EEi (s_A (fst se')) /\
-    fle F lam (cre (snd se')) /\ fle F (cre (snd se')) e_in.
+    LB (snd se') /\ fle F (cre (snd se')) e_in.
   Proof.
     intros HZ HN He Hok. unfold dmrg_opt in *. cbv zeta in *. destruct se as [st en0]. cbn [fst snd] in *.
     destruct (keig (length (s_tr st)) (gBL st i) (gBR st i) (nth i Hs []) (gA st i)) as [en A1] eqn:Ek. cbn [fst snd s_tr] in *.
@@ -215,9 +216,7 @@ Section DMRG.
                  (mkt (mkcall EIG i 0) [gBL st i; gBR st i] [gA st i] [] :: s_tr st)) (Hsh _ _ HX) eq_refl eq_refl eq_refl) as (HZ' & N1 & E1).
     cbn [s_A] in *. split; [exact HZ'|]. rewrite N1, E1. split; [exact Hn1|]. split; [exact Hval|].
     split.
-    - pose proof (Hlam (amp (lset (s_A st) i A1))) as Hb.
-      change (fle F (fmul F lam (cre (NNi (lset (s_A st) i A1)))) (cre (EEi (lset (s_A st) i A1)))) in Hb.
-      rewrite N1, E1, Hn1, cre_one, <- Hval in Hb. eapply fle_eq; [| reflexivity | exact Hb]. ring.
+    - rewrite Hval, <- E1. apply HLB. rewrite N1. exact Hn1.
     - rewrite <- N0, HN, cre_one, <- E0 in Hritz.
       eapply fle_trans; [|exact He]. eapply fle_eq; [| reflexivity | exact Hritz]. ring.
   Qed.
@@ -315,7 +314,7 @@ Section DMRG.
   Definition Pre (e_in : F) (i : nat) (se : sw K * K) : Prop :=
     Zi (fst se) i /\ NNi (s_A (fst se)) = k1 K /\ fle F (cre (EEi (s_A (fst se)))) e_in.
   Definition PP (e_in : F) (i : nat) (se : sw K * K) : Prop :=
-    Zi (fst se) i /\ NNi (s_A (fst se)) = k1 K /\ snd se = EEi (s_A (fst se)) /\ fle F lam (cre (snd se)) /\ fle F (cre (snd se)) e_in.
+    Zi (fst se) i /\ NNi (s_A (fst se)) = k1 K /\ snd se = EEi (s_A (fst se)) /\ LB (snd se) /\ fle F (cre (snd se)) e_in.
   Lemma PP_Pre e_in i se : PP e_in i se -> Pre e_in i se.
   Proof. intros (H1 & H2 & H3 & _ & H5). split; [exact H1|]. split; [exact H2|]. rewrite <- H3. exact H5. Qed.
 
@@ -392,7 +391,7 @@ Section DMRG.
       apply IH; [exact Hn|]. right. destruct Hl as [Hl|Hl]; [discriminate|exact Hl].
   Qed.
   Definition Good (e0 : F) (st : sw K) (ens : list K) : Prop :=
-    fle F (cre (EEi (s_A st))) e0 /\ Forall (fun e => fle F lam (cre e) /\ fle F (cre e) e0) ens /\ noninc ens /\
+    fle F (cre (EEi (s_A st))) e0 /\ Forall (fun e => LB e /\ fle F (cre e) e0) ens /\ noninc ens /\
     (ens <> [] -> last ens (k0 K) = EEi (s_A st)).
 
   Lemma suf_dmrg1_sweep st : exists new, s_tr (fst (dmrg1_sweep qr keig Hs qd L st)) = new ++ s_tr st.
@@ -434,3 +433,264 @@ Section DMRG.
     - intros _. rewrite last_last. exact Hs'.
   Qed.
 End DMRG.
+
+Arguments rtr_ok {F} qr keig Hs d tr. Arguments noninc {F} l. Arguments keig_ok {F} d BL BR W A ans.
+Arguments dmrg_call_ok {F} qr keig Hs d p t.
+
+Theorem dmrg1_run_gen (F : ofield) orth qr keig (H : mpo (Cx F)) psi n d DsW Ds0 (LB : Cx F -> Prop) A qD ens tr :
+  dmrg_singlesite orth qr keig H psi n = Some (A, qD, ens, tr) ->
+  mpo_shapeb d DsW (o_A H) = true -> mps_shapeb d Ds0 (m_A (fst (orth psi))) = true ->
+  Forall right_iso (m_A (fst (orth psi))) ->
+  2 <= length (o_A H) ->
+  (forall B : list (site (Cx F)), dnorm2 d (length (o_A H)) B = k1 (Cx F) -> LB (denergy d (length (o_A H)) B (o_A H))) ->
+  rtr_ok qr keig (o_A H) d (rev tr) ->
+  let L := length (o_A H) in
+  let E0 := denergy d L (m_A (fst (orth psi))) (o_A H) in
+  dnorm2 d L A = k1 (Cx F) /\ length ens = n /\
+  Forall (fun e => LB e /\ fle F (cre e) (cre E0)) ens /\ noninc ens /\
+  (ens <> [] -> last ens (k0 (Cx F)) = denergy d L A (o_A H)).
+Proof.
+  intros Hrun HH Hp Hiso HL2 HLB Hok L E0.
+  assert (Hlen : length ens = n) by (apply (dmrg1_trace (Cx F) orth qr keig H psi n A qD ens tr Hrun)).
+  unfold dmrg_singlesite in Hrun. destruct (sweep_init orth H psi) as [[st nrm]|] eqn:Einit; [|discriminate].
+  assert (Hd : 0 < d).
+  { unfold mpo_shapeb in HH. rewrite !andb_true_iff in HH. destruct HH as (((((HH & _) & _) & _) & _) & _). apply Nat.ltb_lt. exact HH. }
+  destruct (Z_init (Cx F) d Hd orth H psi st nrm DsW Ds0 Einit HH Hp Hiso) as (HZ & HN & Etr & _ & HWs & HhW).
+  pose proof (sweep_init_blocks (Cx F) orth H psi st nrm Einit) as (EA & _).
+  destruct (dmrg_loop (dmrg1_sweep qr keig (o_A H) (m_qd psi) (length (o_A H))) n st []) as [st' ens'] eqn:El.
+  injection Hrun as <- <- <- <-. rewrite rev_involutive in Hok.
+  assert (HG : Good F (o_A H) d LB (cre E0) st []).
+  { split; [unfold E0, L; rewrite <- EA; apply fle_refl|]. split; [constructor|]. split; [exact I|]. intros C; exfalso; apply C; reflexivity. }
+  pose proof (loop_run F qr keig (o_A H) (m_qd psi) d DsW Hd HWs HhW LB HLB (cre E0) n st [] HL2 HZ HN HG) as Hrunl.
+  rewrite El in Hrunl. cbn [fst snd] in Hrunl. destruct (Hrunl Hok) as (HZ' & HN' & (G1 & G2 & G3 & G4)).
+  split; [exact HN'|]. split; [exact Hlen|]. split; [exact G2|]. split; [exact G3|exact G4].
+Qed.
+
+(* the two instances: every reported energy is >= lam whenever H >= lam; and the lam-free statement *)
+Theorem dmrg1_run (F : ofield) orth qr keig (H : mpo (Cx F)) psi n d DsW Ds0 lam A qD ens tr :
+  dmrg_singlesite orth qr keig H psi n = Some (A, qD, ens, tr) ->
+  mpo_shapeb d DsW (o_A H) = true -> mps_shapeb d Ds0 (m_A (fst (orth psi))) = true ->
+  Forall right_iso (m_A (fst (orth psi))) ->
+  2 <= length (o_A H) -> bounded_below d (length (o_A H)) (o_A H) lam ->
+  rtr_ok qr keig (o_A H) d (rev tr) ->
+  let L := length (o_A H) in
+  let E0 := denergy d L (m_A (fst (orth psi))) (o_A H) in
+  dnorm2 d L A = k1 (Cx F) /\ length ens = n /\
+  Forall (fun e => fle F lam (cre e) /\ fle F (cre e) (cre E0)) ens /\ noninc ens /\
+  (ens <> [] -> last ens (k0 (Cx F)) = denergy d L A (o_A H)).
+Proof.
+  intros Hrun HH Hp Hiso HL2 Hlam Hok.
+  apply (dmrg1_run_gen F orth qr keig H psi n d DsW Ds0 (fun e => fle F lam (cre e)) A qD ens tr); try assumption.
+  intros B HB. pose proof (Hlam (amp B)) as Hb.
+  change (fle F (fmul F lam (cre (dnorm2 d (length (o_A H)) B))) (cre (denergy d (length (o_A H)) B (o_A H)))) in Hb.
+  rewrite HB in Hb. eapply fle_eq; [| reflexivity | exact Hb]. cbn [cre fst k1 K Cx]. 
+  destruct (f_ft F) as [Rth _ _ _]. rewrite (Rmul_comm Rth), (Rmul_1_l Rth). reflexivity.
+Qed.
+
+(* ======================= TDVP, single-site ======================= *)
+Section TDVP.
+  Variable R : cring.
+  Add Ring Rring_sweeps_run_tdvp : (k_rt R).
+  Variable qr : nat -> mx R -> list BinNums.Z -> list BinNums.Z -> mx R * mx R * list BinNums.Z.
+  Variable kexp : nat -> env R -> env R -> osite R -> site R -> R -> site R.
+  Variable kexp0 : nat -> env R -> env R -> mx R -> R -> mx R.
+  Variable Hs : list (osite R).
+  Variable qd : list BinNums.Z.
+  Variables (dt hdt : R).
+  Variable d : nat.
+  Variable DsW : list nat.
+  Hypothesis Hd : 0 < d.
+  Hypothesis HWs : ochain_ok (repeat d (length Hs)) DsW Hs.
+  Hypothesis HhW : hd 0 DsW = 1.
+  Notation L := (length Hs).
+  Notation Zi := (Z R Hs d).
+  Notation NNi := (NN R Hs d).
+  Notation EEi := (EE R Hs d).
+
+  (* conservation contracts of the local solvers (what the Lanczos exponential of a Hermitian map gives for imaginary dt) *)
+  Definition kexp_ok (BL BR : env R) (W : osite R) (A A' : site R) : Prop :=
+    (forall Dl Dr, site_ok d Dl Dr A -> site_ok d Dl Dr A') /\
+    site_dot A' A' = site_dot A A /\
+    site_dot A' (alh R BL BR W A') = site_dot A (alh R BL BR W A).
+  Definition kexp0_ok (BL BR : env R) (C C' : mx R) : Prop :=
+    nr C' = nr C /\ nc C' = nc C /\ frob C' C' = frob C C /\
+    frob C' (albc R BL BR C') = frob C (albc R BL BR C).
+  Definition tdvp_call_ok (p : nat) (t : tcall R) : Prop :=
+    let W := nth (c_site (t_call t)) Hs [] in
+    let tm := tval dt hdt (c_coef (t_call t)) in
+    match c_kind (t_call t), t_envs t, t_ten t, t_qs t with
+    | KH, [BL; BR], [A], _ => kexp_ok BL BR W A (kexp p BL BR W A tm)
+    | KB, [BL; BR], [[C]], _ => kexp0_ok BL BR C (kexp0 p BL BR C tm)
+    | QR, _, [[M]], [q0; q1] => qr_ok M (qr p M q0 q1)
+    | _, _, _, _ => True
+    end.
+  Fixpoint ttr_ok (tr : list (tcall R)) : Prop :=
+    match tr with [] => True | t :: rest => tdvp_call_ok (length rest) t /\ ttr_ok rest end.
+  Lemma ttr_ok_suffix new old : ttr_ok (new ++ old) -> ttr_ok old.
+  Proof. induction new as [|t new IH]; [exact (fun H => H)|]. cbn [app ttr_ok]. intros [_ H]. exact (IH H). Qed.
+
+  (* replacing the centre tensor by the answer of a conserving solver *)
+  Lemma evolve_center (st st' : sw R) i A1 :
+    Zi st i -> kexp_ok (gBL st i) (gBR st i) (nth i Hs []) (gA st i) A1 ->
+    s_A st' = lset (s_A st) i A1 -> s_BL st' = s_BL st -> s_BR st' = s_BR st ->
+    Zi st' i /\ NNi (s_A st') = NNi (s_A st) /\ EEi (s_A st') = EEi (s_A st).
+  Proof.
+    intros HZ (Hsh & Hn & He) EA EBL EBR.
+    destruct (Z_center R Hs d DsW Hd HWs HhW st i HZ) as (Dl & Dr & HX & N0 & E0 & Hrep).
+    destruct (Hrep A1 st' (Hsh _ _ HX) EA EBL EBR) as (HZ' & N1 & E1).
+    split; [exact HZ'|]. rewrite N1, E1, N0, E0. split; assumption.
+  Qed.
+
+  Lemma tdvp_mid_step (st : sw R) i : Zi st i -> ttr_ok (s_tr (tdvp1_mid kexp Hs dt hdt st i)) ->
+    let st' := tdvp1_mid kexp Hs dt hdt st i in
+    Zi st' i /\ NNi (s_A st') = NNi (s_A st) /\ EEi (s_A st') = EEi (s_A st).
+  Proof.
+    intros HZ Hok. unfold tdvp1_mid in *. cbn [s_tr] in Hok. destruct Hok as [Hc _].
+    unfold tdvp_call_ok in Hc. cbn [t_call c_kind c_site c_coef t_envs t_ten t_qs] in Hc.
+    cbv zeta. apply (evolve_center st _ i _ HZ Hc); reflexivity.
+  Qed.
+
+  Lemma tdvp_lr_step (st : sw R) i : Zi st i -> S i < L ->
+    ttr_ok (s_tr (tdvp1_lr qr kexp kexp0 Hs qd dt hdt st i)) ->
+    let st' := tdvp1_lr qr kexp kexp0 Hs qd dt hdt st i in
+    Zi st' (S i) /\ NNi (s_A st') = NNi (s_A st) /\ EEi (s_A st') = EEi (s_A st).
+  Proof.
+    intros HZ HSi Hok. destruct (Z_len R Hs d st i HZ) as (Hl & Hi & _ & _).
+    unfold tdvp1_lr, qr_left in *. cbv zeta in *.
+    set (A1 := kexp (length (s_tr st)) (gBL st i) (gBR st i) (nth i Hs []) (gA st i) (tval dt hdt 1)) in *.
+    destruct (qr (S (length (s_tr st))) (site_flat A1) (qflat qd (gq st i)) (gq st (S i))) as [[Q C] qb] eqn:Eq.
+    cbn [s_tr s_A s_BL s_BR s_qD] in *. destruct Hok as (HcB & _ & HcQ & HcK & _).
+    unfold tdvp_call_ok in HcB, HcQ, HcK. cbn [at_site t_call c_kind c_site c_coef t_envs t_ten t_qs length] in HcB, HcQ, HcK.
+    fold A1 in HcK. rewrite Eq in HcQ.
+    (* the state after the first half step *)
+    set (sta := mksw (lset (s_A st) i A1) (s_qD st) (s_BL st) (s_BR st) (s_tr st)).
+    destruct (evolve_center st sta i A1 HZ HcK eq_refl eq_refl eq_refl) as (HZa & Na & Ea).
+    assert (GAa : gA sta i = A1) by (unfold gA, sta; cbn [s_A]; apply nth_lset_same; lia).
+    assert (GBa : gA sta (S i) = gA st (S i)) by (unfold gA, sta; cbn [s_A]; apply nth_lset_other; lia).
+    rewrite <- GAa in HcQ.
+    destruct (Z_move_right R Hs d DsW Hd HWs HhW sta i Q C qb HZa HSi HcQ) as (N0 & E0 & Hmv).
+    rewrite GAa in E0, Hmv. set (Aq := site_unflat (length A1) (sdl A1) Q) in *.
+    change (gBL sta i) with (gBL st i) in *. change (gBR sta i) with (gBR st i) in *.
+    destruct HcB as (c1 & c2 & c3 & c4).
+    match goal with |- Z _ _ _ ?s _ /\ _ =>
+      assert (EAs : s_A s = lset (lset (s_A sta) i Aq) (S i) (lmul_site (kexp0 (S (S (S (length (s_tr st))))) (contraction_operator_step_left Aq Aq (nth i Hs []) (gBL st i)) (gBR st i) C (tval dt hdt (-1))) (gA sta (S i))))
+        by (cbn [s_A]; unfold sta at 1; cbn [s_A]; rewrite lset_lset, GBa; reflexivity);
+      destruct (Hmv _ s c1 c2 EAs eq_refl eq_refl) as (HZ' & N1 & E1) end.
+    cbn [s_A] in N1, E1. split; [exact HZ'|]. rewrite N1, E1, c3, c4, <- N0, <- E0, Na, Ea. split; reflexivity.
+  Qed.
+
+  Lemma tdvp_rl_step (st : sw R) i : Zi st i -> 0 < i ->
+    ttr_ok (s_tr (tdvp1_rl qr kexp kexp0 Hs qd dt hdt st i)) ->
+    let st' := tdvp1_rl qr kexp kexp0 Hs qd dt hdt st i in
+    Zi st' (i - 1) /\ NNi (s_A st') = NNi (s_A st) /\ EEi (s_A st') = EEi (s_A st).
+  Proof.
+    intros HZ Hi0 Hok. destruct (Z_len R Hs d st i HZ) as (Hl & Hi & HlBL & HlBR).
+    unfold tdvp1_rl, qr_right in *. cbv zeta in *.
+    destruct (qr (length (s_tr st)) (site_flat (site_tr (gA st i))) (qflat qd (zneg (gq st (S i)))) (zneg (gq st i))) as [[Q C] qb] eqn:Eq.
+    cbn [s_tr s_A s_BL s_BR s_qD] in *. destruct Hok as (HcK & HcB & _ & HcQ & _).
+    unfold tdvp_call_ok in HcB, HcQ, HcK. cbn [at_site t_call c_kind c_site c_coef t_envs t_ten t_qs length] in HcB, HcQ, HcK.
+    rewrite Eq in HcQ.
+    destruct (Z_move_left R Hs d DsW Hd HWs HhW st i Q C qb HZ Hi0 HcQ) as (N0 & E0 & Hmv).
+    set (Aq := site_tr (site_unflat (length (site_tr (gA st i))) (sdl (site_tr (gA st i))) Q)) in *.
+    set (BRn := contraction_operator_step_right Aq Aq (nth i Hs []) (gBR st i)) in *.
+    set (C1 := kexp0 (S (S (length (s_tr st)))) (gBL st i) BRn (trmx C) (tval dt hdt (-1))) in *.
+    destruct HcB as (c1 & c2 & c3 & c4).
+    (* the state after the bond step, before the last half step *)
+    set (stb := mksw (lset (lset (s_A st) i Aq) (i - 1) (rmul_site (gA st (i - 1)) C1)) (s_qD st) (s_BL st) (lset (s_BR st) (i - 1) BRn) (s_tr st)).
+    assert (Hc1 : nr C1 = nc C) by (rewrite c1; reflexivity).
+    assert (Hc2 : nc C1 = nr C) by (rewrite c2; reflexivity).
+    destruct (Hmv C1 stb Hc1 Hc2 eq_refl eq_refl eq_refl) as (HZb & Nb & Eb).
+    assert (GAb : gA stb (i - 1) = rmul_site (gA st (i - 1)) C1) by (unfold gA, stb; cbn [s_A]; apply nth_lset_same; rewrite lset_length; lia).
+    assert (GRb : gBR stb (i - 1) = BRn) by (unfold gBR, stb; cbn [s_BR]; apply nth_lset_same; lia).
+    change (gBL stb (i - 1)) with (gBL st (i - 1)) in *.
+    rewrite <- GAb, <- GRb in HcK.
+    match goal with |- Z _ _ _ ?s _ /\ _ =>
+      assert (EAs : s_A s = lset (s_A stb) (i - 1) (kexp (S (S (S (length (s_tr st))))) (gBL st (i - 1)) (gBR stb (i - 1)) (nth (i - 1) Hs []) (gA stb (i - 1)) (tval dt hdt 1)))
+        by (cbn [s_A]; unfold stb at 1; cbn [s_A]; rewrite lset_lset, GAb, GRb; reflexivity);
+      destruct (evolve_center stb s (i - 1) _ HZb HcK EAs eq_refl eq_refl) as (HZ' & N1 & E1) end.
+    cbn [s_A] in N1, E1. split; [exact HZ'|]. rewrite N1, E1, Nb, Eb, c3, c4, <- N0, <- E0. split; reflexivity.
+  Qed.
+
+  (* ---- one time step, any number of steps ---- *)
+  Definition TP (n0 e0 : R) (i : nat) (st : sw R) : Prop := Zi st i /\ NNi (s_A st) = n0 /\ EEi (s_A st) = e0.
+
+  Lemma suf_tdvp1_step st : exists new, s_tr (tdvp1_step qr kexp kexp0 Hs qd dt hdt L st) = new ++ s_tr st.
+  Proof.
+    unfold tdvp1_step. cbv zeta.
+    set (st1 := fold_left (tdvp1_lr qr kexp kexp0 Hs qd dt hdt) (seq 0 (L - 1)) st).
+    destruct (fold_mono (@s_tr R) (tdvp1_lr qr kexp kexp0 Hs qd dt hdt) (suf_tdvp1_lr R qr kexp kexp0 Hs qd dt hdt) (seq 0 (L - 1)) st) as [n1 E1].
+    fold st1 in E1.
+    destruct (fold_mono (@s_tr R) (tdvp1_rl qr kexp kexp0 Hs qd dt hdt) (suf_tdvp1_rl R qr kexp kexp0 Hs qd dt hdt) (rev (seq 1 (L - 1))) (tdvp1_mid kexp Hs dt hdt st1 (L - 1))) as [n2 E2].
+    rewrite E2. unfold tdvp1_mid at 1. cbn [s_tr]. rewrite E1. eexists (n2 ++ _ :: n1). rewrite <- app_assoc. reflexivity.
+  Qed.
+
+  Lemma tdvp_step_run n0 e0 (st : sw R) : 1 <= L -> TP n0 e0 0 st ->
+    ttr_ok (s_tr (tdvp1_step qr kexp kexp0 Hs qd dt hdt L st)) ->
+    TP n0 e0 0 (tdvp1_step qr kexp kexp0 Hs qd dt hdt L st).
+  Proof.
+    intros HL1 HT Hok. unfold tdvp1_step in *. cbv zeta in *.
+    set (st1 := fold_left (tdvp1_lr qr kexp kexp0 Hs qd dt hdt) (seq 0 (L - 1)) st) in *.
+    set (st2 := tdvp1_mid kexp Hs dt hdt st1 (L - 1)) in *.
+    assert (Hok2 : ttr_ok (s_tr st2)).
+    { destruct (fold_mono (@s_tr R) (tdvp1_rl qr kexp kexp0 Hs qd dt hdt) (suf_tdvp1_rl R qr kexp kexp0 Hs qd dt hdt) (rev (seq 1 (L - 1))) st2) as [new E].
+      rewrite E in Hok. exact (ttr_ok_suffix _ _ Hok). }
+    assert (Hok1 : ttr_ok (s_tr st1)).
+    { unfold st2, tdvp1_mid in Hok2. cbn [s_tr] in Hok2. exact (proj2 Hok2). }
+    assert (H1 : TP n0 e0 (0 + (L - 1)) st1).
+    { unfold st1.
+      apply (fold_up (@s_tr R) (tdvp1_lr qr kexp kexp0 Hs qd dt hdt) (suf_tdvp1_lr R qr kexp kexp0 Hs qd dt hdt) ttr_ok ttr_ok_suffix
+               (TP n0 e0) (L - 1) 0 st HT Hok1).
+      intros i s' Hi (HZ & HN & HE) Hoki. destruct (tdvp_lr_step s' i HZ ltac:(lia) Hoki) as (HZ' & N' & E').
+      split; [exact HZ'|]. split; congruence. }
+    cbn [Nat.add] in H1.
+    assert (H2 : TP n0 e0 (L - 1) st2).
+    { destruct H1 as (HZ & HN & HE). destruct (tdvp_mid_step st1 (L - 1) HZ Hok2) as (HZ' & N' & E').
+      fold st2 in HZ', N', E'. split; [exact HZ'|]. split; congruence. }
+    apply (fold_down (@s_tr R) (tdvp1_rl qr kexp kexp0 Hs qd dt hdt) (suf_tdvp1_rl R qr kexp kexp0 Hs qd dt hdt) ttr_ok ttr_ok_suffix
+             (TP n0 e0) (L - 1) 0 st2 H2 Hok).
+    intros i s' Hi (HZ & HN & HE) Hoki. destruct (tdvp_rl_step s' i HZ ltac:(lia) Hoki) as (HZ' & N' & E').
+    split; [exact HZ'|]. split; congruence.
+  Qed.
+
+  Lemma suf_tdvp_iter n : forall st, exists new, s_tr (iter n (tdvp1_step qr kexp kexp0 Hs qd dt hdt L) st) = new ++ s_tr st.
+  Proof.
+    induction n as [|n IH]; intros st; cbn [iter]; [exists []; reflexivity|].
+    destruct (IH (tdvp1_step qr kexp kexp0 Hs qd dt hdt L st)) as [n1 E1]. destruct (suf_tdvp1_step st) as [n2 E2].
+    exists (n1 ++ n2). rewrite E1, E2, app_assoc. reflexivity.
+  Qed.
+  Lemma tdvp_iter_run n0 e0 n : forall st, 1 <= L -> TP n0 e0 0 st ->
+    ttr_ok (s_tr (iter n (tdvp1_step qr kexp kexp0 Hs qd dt hdt L) st)) ->
+    TP n0 e0 0 (iter n (tdvp1_step qr kexp kexp0 Hs qd dt hdt L) st).
+  Proof.
+    induction n as [|n IH]; intros st HL1 HT Hok; cbn [iter] in *; [exact HT|].
+    apply IH; [exact HL1| |exact Hok]. apply tdvp_step_run; [exact HL1|exact HT|].
+    destruct (suf_tdvp_iter n (tdvp1_step qr kexp kexp0 Hs qd dt hdt L st)) as [new E]. rewrite E in Hok. exact (ttr_ok_suffix _ _ Hok).
+  Qed.
+End TDVP.
+
+Arguments ttr_ok {R} qr kexp kexp0 Hs dt hdt d tr. Arguments kexp_ok {R} d BL BR W A A'. Arguments kexp0_ok {R} BL BR C C'.
+Arguments tdvp_call_ok {R} qr kexp kexp0 Hs dt hdt d p t.
+
+Theorem tdvp1_run (R : cring) orth qr kexp kexp0 (H : mpo R) psi dt hdt n d DsW Ds0 A qD nrm tr :
+  tdvp_singlesite orth qr kexp kexp0 H psi dt hdt n = Some (A, qD, nrm, tr) ->
+  mpo_shapeb d DsW (o_A H) = true -> mps_shapeb d Ds0 (m_A (fst (orth psi))) = true ->
+  Forall right_iso (m_A (fst (orth psi))) ->
+  ttr_ok qr kexp kexp0 (o_A H) dt hdt d (rev tr) ->
+  let L := length (o_A H) in
+  nrm = snd (orth psi) /\
+  dnorm2 d L A = k1 R /\
+  denergy d L A (o_A H) = denergy d L (m_A (fst (orth psi))) (o_A H).
+Proof.
+  intros Hrun HH Hp Hiso Hok L.
+  unfold tdvp_singlesite in Hrun. destruct (sweep_init orth H psi) as [[st nrm']|] eqn:Einit; [|discriminate].
+  assert (Hd : 0 < d).
+  { unfold mpo_shapeb in HH. rewrite !andb_true_iff in HH. destruct HH as (((((HH0 & _) & _) & _) & _) & _). apply Nat.ltb_lt. exact HH0. }
+  assert (HL1 : 1 <= length (o_A H)).
+  { unfold mpo_shapeb in HH. rewrite !andb_true_iff, negb_true_iff, Nat.eqb_neq in HH. destruct HH as (((((_ & HH1) & _) & _) & _) & _). lia. }
+  destruct (Z_init R d Hd orth H psi st nrm' DsW Ds0 Einit HH Hp Hiso) as (HZ & HN & Etr & Enrm & HWs & HhW).
+  pose proof (sweep_init_blocks R orth H psi st nrm' Einit) as (EA & _).
+  injection Hrun as <- <- <- <-. rewrite rev_involutive in Hok.
+  assert (HT : TP R (o_A H) d (k1 R) (EE R (o_A H) d (s_A st)) 0 st) by (split; [exact HZ|split; [exact HN|reflexivity]]).
+  destruct (tdvp_iter_run R qr kexp kexp0 (o_A H) (m_qd psi) dt hdt d DsW Hd HWs HhW _ _ n st HL1 HT Hok) as (_ & N' & E').
+  split; [exact Enrm|]. split; [exact N'|]. rewrite <- EA. exact E'.
+Qed.
